@@ -8,6 +8,7 @@ import (
 
 	"verif/lib/lat"
 	"verif/lib/meshq"
+	"vshim/vmap"
 	"vshim/vsched"
 )
 
@@ -62,10 +63,28 @@ func withProcs(p int, f func() string) string {
 }
 
 func init() {
+	// Repair (singular edges, then singular vertices) walks maps of edges, faces and vertices; repairing one
+	// group replaces triangles that border another, so the walk order is an input the caller does not control.
+	// Every map range is an explorer-owned permutation here; "repeated runs are identical" = one outcome.
+	for _, bits := range []uint64{0x29, 0x69, 0x96, 0x56, 0x81, 0xa5} {
+		for _, clip := range []bool{true, false} {
+			bits, clip := bits, clip
+			register(scenario{name: fmt.Sprintf("dc-repair/2x2x2-%#x/clip=%v", bits, clip), procs: 1, prop: "C12",
+				about: "DualContouring with Repair under explorer-owned map iteration order",
+				body: func() string {
+					vmap.Permute = true
+					dc := &model3d.DualContouring{S: model3d.SolidSurfaceEstimator{Solid: lat.NewSolid3(model3d.XYZ(0.1, -0.7, 2.3), 0.3, [3]int{2, 2, 2}, bits)},
+						Delta: 0.3, MaxGos: 1, Repair: true, Clip: clip}
+					return meshq.FaceMultiset3(dc.Mesh().TriangleSlice(), false)
+				}})
+		}
+	}
 	for _, procs := range []int{2, 3} {
 		for _, n := range [][3]int{{2, 2, 2}, {2, 2, 3}} {
 			n := n
-			run := func() string { return meshq.FaceMultiset3(model3d.MarchingCubes(pattern3(n), 1).TriangleSlice(), false) }
+			run := func() string {
+				return meshq.FaceMultiset3(model3d.MarchingCubes(pattern3(n), 1).TriangleSlice(), false)
+			}
 			register(scenario{name: fmt.Sprintf("mc-scan/procs%d/%dx%dx%d", procs, n[0], n[1], n[2]), procs: procs, prop: "C12",
 				about: "squareSpacer.Scan pipelined z-slab caches (one goroutine + channel per slab)",
 				body:  run, want: func() string { return withProcs(1, run) }})
